@@ -32,7 +32,7 @@ CLAIMED.update({
     },
     "C08": {
         "technique": "TLA+ token-accounting relation (Accounts/Align over Toks): at design level on everything the parser model (ParseMachine) accepts among all single-token edits; on the real code evaluated by TLC for every source the real Parse accepts among the same edits and random token soups",
-        "text": "TLC generates every single-token corruption (delete, duplicate, transpose, truncate, insert from a 8-22 token menu incl. error tokens) of every base program of the operator/position families; each is parsed for real; for every accepted source the (Scan tokens, returned tree) observation is validated by TLC against Accounts: re-printing the tree must give back the tokens, only the two documented commas and empty statements may be absent.",
+        "text": "TLC generates every single-token corruption (delete, duplicate, transpose, truncate, insert from a 8-22 token menu incl. error tokens) of every base program of the operator/position families, plus the groups family (an operand followed by two or three bracketed / dotted groups, each well formed or with junk inside, in five hosts: errors of an earlier group must not be forgotten); each is parsed for real; for every accepted source the (Scan tokens, returned tree) observation is validated by TLC against Accounts: re-printing the tree must give back the tokens, only the two documented commas and empty statements may be absent.",
         "note": "Trusts TLC, the AST->record projection, and Scan for the significant tokens (C09). A Go transcription of the relation pre-filters; TLC decides and must agree with it.",
         "ref": "DESIGN.md 3.2, 4 (C08)",
     },
@@ -71,7 +71,7 @@ CLAIMED.update({
     },
     "C06": {
         "technique": "TLA+ lexical-scoping semantics (fold of parameters and lets) vs writer model with scope, checked by TLC; real compilations with parameter maps read and evaluated by TLC with placeholders bound",
-        "text": "TLC enumerates 10 binding set-ups x 9 value shapes x 20 use sites x 10 positions (incl. row counts and join conditions); design level: the writer model with its token scope agrees with lexical scoping on every row and placeholder valuation; conformance: each program is compiled for real with its parameter map and the SQL slot is evaluated by TLC; lets that are unused or follow the query must leave the output text unchanged.",
+        "text": "TLC enumerates 10 binding set-ups x 9 value shapes x 20 use sites x 11 positions (incl. row counts, join conditions and the condition of a join nested in another join's right-hand pipeline); design level: the writer model with its token scope agrees with lexical scoping on every row and placeholder valuation; conformance: each program is compiled for real with its parameter map and the SQL slot is evaluated by TLC; lets that are unused or follow the query must leave the output text unchanged.",
         "note": "Parameter snippets are single placeholders (verbatim insertion is by contract).",
         "ref": "DESIGN.md 3.7, 4 (C06)",
     },
@@ -89,12 +89,12 @@ CLAIMED.update({
 CLAIMED.update({
     "C02": {
         "technique": "TLA+ model of the subquery split algorithm (QuerySplit) checked by TLC after every operator against a left-to-right relational interpreter through a TLA+ SQL statement reader and evaluator on all small databases; every real compilation validated by TLC with the same relation",
-        "text": "Design level: every sequence of up to 3/4 operators from a 22-entry menu is a state; after each operator TLC checks that the model's statement, read by Sql!ReadStmt and evaluated by Rel!SqlSem, returns on each of the 91 (thorough: also 820) instances of T(a,b) over {NULL,1,2} exactly what Rel!PipelineSem returns for the operators applied left to right: same column names in the same order, same rows, in the order classes a sort determines. Conformance: every sequence is compiled by the real Compile; TLC reads the real statement and evaluates the same relation; structural difference from the model is reported as drift only.",
+        "text": "Design level: every sequence of up to 3/4 operators from a 25-entry menu, and every sequence of up to 4/5 operators from the nine sort / filter / limit / top instances, is a state; after each operator TLC checks that the model's statement, read by Sql!ReadStmt and evaluated by Rel!SqlSem, returns on each of the 91 (thorough: also 820) instances of T(a,b) over {NULL,1,2} exactly what Rel!PipelineSem returns for the operators applied left to right: same column names in the same order, same rows, in the order classes a sort determines. Conformance: every sequence is compiled by the real Compile; TLC reads the real statement and evaluates the same relation; structural difference from the model is reported as drift only.",
         "note": "The dialect's order propagation through sub-selects is an assumption of the specification (DESIGN.md 9). Results are compared where determined (no limit through tied rows).",
         "ref": "DESIGN.md 3.6, 4 (C02)",
     },
     "C03": {
-        "technique": "as C02, on join families: left prefix x 14 join forms x following operator x second join, three base tables with NULL / duplicate / unmatched keys",
+        "technique": "as C02, on join families: left prefix x 20 join forms (incl. nested default-kind joins after a filter) x following operator x second join, three base tables with NULL / duplicate (doubled rows) / unmatched keys",
         "text": "TLC checks at design level and on the real statements that the join source (DISTINCT for innerunique, JOIN / LEFT JOIN, $left/$right aliases, bare-key rewrite, AND-ed conditions, nested right-hand pipelines and joins, operators after the join) returns the reference join of the pipeline so far with the right-hand pipeline, on all instances of T(k,a), B(k,b), C(k,c) with up to 1 (thorough 2) rows each.",
         "note": "Join conditions are compared by truth. Programs refer after a join only to unambiguous columns.",
         "ref": "DESIGN.md 3.6, 4 (C03)",
